@@ -33,7 +33,7 @@ from symx.harness import Harness
 from symx import core
 from symx.core import sym_and, sym_or, sym_not, any_sym
 from ref import csem
-from props.C27 import run_batch, batches, lit, SHIFT_COUNT_MAX, optags, tractable, has_defined_point
+from props.C27 import run_batch, batches, lit, SHIFT_COUNT_MAX, optags, tractable, has_defined_point, precedence_shapes
 
 PROPERTY = "C26"
 LEVEL = "model_checking"
@@ -45,7 +45,7 @@ BOUNDS = {
                                    "rotating subsets of the shapes without / and %",
               "directives": "#if and #elif"},
     "thorough": {"literal values": "as quick",
-                 "expression shapes": "as quick + 5000 depth-2/3 trees sampled by VERIF_SEED",
+                 "expression shapes": "as quick + 3500 depth-2/3 trees sampled by VERIF_SEED",
                  "directives": "#if and #elif"},
 }
 OUTSIDE = ["macro expansion, stringification (#), token pasting (##), nested/recursive expansion, rescanning, hide sets "
@@ -83,14 +83,16 @@ class PPIfHarness(Harness):
     timeout_ms = 60000
     mode = "c26"
 
-    def __init__(self, directive, expr, W=None):
+    def __init__(self, directive, expr, paren="full", W=None):
         self.directive = directive
         self.expr = expr
         self.lits = csem.literals(expr)
-        self.text = csem.render(expr, lambda i, s: f"L{i}{s}")
+        self.paren = paren
+        self.render = csem.render if paren == "full" else csem.render_min
+        self.text = self.render(expr, lambda i, s: f"L{i}{s}")
         prefix = "c26" if self.mode == "c26" else "c28.pp"
         self.name = f"{prefix}.{directive}[{self.text}] ops=,{','.join(optags(expr))},"
-        self.params = dict(directive=directive, expr=expr)
+        self.params = dict(directive=directive, expr=expr, paren=paren)
         self.W = W or (80 + 64 * self.text.count("*") + (SHIFT_COUNT_MAX + 1) * self.text.count("<<"))
         self.shiftlits = csem.shift_count_literals(expr)
         self.mullits = csem.mul_right_literals(expr)
@@ -144,7 +146,7 @@ class PPIfHarness(Harness):
                 tok = f"{101 + i}{s}"
                 table[tok] = lv[i]
                 return tok
-            text = pp_text(self.directive, csem.render(self.expr, littext))
+            text = pp_text(self.directive, self.render(self.expr, littext))
             orig = ppmod.cnum
 
             def cnum(txt):
@@ -158,7 +160,7 @@ class PPIfHarness(Harness):
             finally:
                 ppmod.cnum = orig
         else:
-            text = pp_text(self.directive, csem.render(self.expr, lambda i, s: f"{int(lv[i])}{s}"))
+            text = pp_text(self.directive, self.render(self.expr, lambda i, s: f"{int(lv[i])}{s}"))
             toks = list(CPreProcessor(COptions()).process_file(io.StringIO(text), "x.c"))
         return [t.val for t in toks if getattr(t, "typ", None) == "ID"]
 
@@ -228,6 +230,13 @@ def quick_templates():
     for s in ("", "u"):
         T.append(("if", lit(0, s)))
         T.append(("elif", lit(0, s)))
+    # operator precedence / associativity of the real parse_expression: depth-2 shapes printed with only the
+    # parentheses C needs, observed through == L
+    for e in precedence_shapes():
+        if "cast" in csem.operators(e):
+            continue                      # no casts in #if
+        n = len(csem.literals(e))
+        T.append(("if", ["eq", e, lit(n, "")], "min"))
     return T
 
 
@@ -256,21 +265,11 @@ def _rand_tree(rnd, depth, base):
     return ["cond", c, a, b], n
 
 
-def heavy_on_leaves(e):
-    """in the sampled trees the operands of * / % are leaves (64-bit products and quotients of sub-expressions are
-    out of the solvers' reach; all leaf combinations are in the exhaustive depth-1 family)"""
-    if e[0] == "lit":
-        return True
-    if e[0] in ("mul", "div", "mod") and not all(x[0] == "lit" or (x[0] == "neg" and x[1][0] == "lit") for x in e[1:]):
-        return False
-    return all(heavy_on_leaves(x) for x in e[1:] if isinstance(x, list))
-
-
 def sampled_templates(rnd, n):
     T = []
     while len(T) < n:
         e, k = _rand_tree(rnd, 2, 0)
-        if e[0] in ("lit", "neg") or not tractable(e) or not heavy_on_leaves(e):
+        if e[0] in ("lit", "neg") or not tractable(e):
             continue
         o = csem.renumber(rnd.choice(observers(e, k, True)))
         spec = (rnd.choice(["if", "if", "elif"]), o)
@@ -283,7 +282,7 @@ def sampled_templates(rnd, n):
 def select(tier, seed):
     T = quick_templates()
     if tier == "thorough":
-        T += sampled_templates(random.Random(2600001 * seed + 26), 5000)
+        T += sampled_templates(random.Random(2600001 * seed + 26), 3500)
     return T
 
 
